@@ -17,6 +17,10 @@ GEO = "swcgeom.transforms.geometry"
 
 def run(ctx, col, tier):
     repo = ctx.repo
+    col.rule("R-SINCOS", "a rotation builder takes the sine from the angle, never from the cosine (`sqrt(1 - cos^2)` loses the sign; with copysign it is "
+             "wrong beyond a half turn): zero expected, positive examples kept", floor=1)
+    from ..rules import sinsqrt as _sinsqrt
+    _sinsqrt.check(ctx, col, "R-SINCOS", ("swcgeom.utils.transforms", "swcgeom.transforms.geometry"))
     col.rule("R-SHAPE", "every matrix builder returns shape (4,4) and contains no definite "
              "broadcasting / matrix-product shape error", floor=6, exhaustive=True)
     col.rule("R-CONJ", "centre conjugation: with the vector convention read from `apply`, the "
